@@ -1,6 +1,7 @@
 ---------------------------- MODULE MC_EnvLayers ----------------------------
 EXTENDS EnvLayers
-CONSTANTS MaxFiles
+CONSTANTS MaxFiles,
+          Product    \* BOOLEAN: label-file shapes x every environment entry kind and discard (FALSE: label shapes vary with one fixed environment side)
 FileShapes(i) == {[state |-> "missing-required", k |-> Unset, r |-> FALSE], [state |-> "missing-optional", k |-> Unset, r |-> FALSE],
                   [state |-> "present", k |-> Unset, r |-> FALSE], [state |-> "present", k |-> V("f" \o ToString(i)), r |-> FALSE],
                   [state |-> "present", k |-> V("f" \o ToString(i)), r |-> TRUE], [state |-> "present", k |-> Unset, r |-> TRUE]}
@@ -8,6 +9,8 @@ Files == UNION {{fs \in [1..n -> UNION {FileShapes(i) : i \in 1..3}] : \A i \in 
 LabelFiles == {<<>>, <<[state |-> "present", k |-> V("l1"), r |-> FALSE]>>,
                <<[state |-> "present", k |-> V("l1"), r |-> FALSE], [state |-> "present", k |-> V("l2"), r |-> FALSE]>>,
                <<[state |-> "present", k |-> V("l1"), r |-> FALSE], [state |-> "present", k |-> Unset, r |-> FALSE]>>,
+               <<[state |-> "present", k |-> V("l1"), r |-> TRUE]>>,
+               <<[state |-> "present", k |-> V("l1"), r |-> FALSE], [state |-> "present", k |-> Unset, r |-> TRUE]>>,
                <<[state |-> "missing-required", k |-> Unset, r |-> FALSE]>>}
 VARIABLE cs
 Init == \E fs \in Files : cs = [seed |-> fs]
@@ -15,9 +18,13 @@ IsSeed == "seed" \in DOMAIN cs
 Next == /\ IsSeed
         /\ \E penv \in {Unset, V("p")} : \E entry \in {"none", "value", "empty", "valueless"} : \E discard \in BOOLEAN :
            \E lfs \in LabelFiles : \E lentry \in {"none", "value"} :
-             cs' = [penv |-> penv, files |-> cs.seed, entry |-> entry, discard |-> discard, lfiles |-> lfs, lentry |-> lentry,
+             /\ (Product \/ lfs = <<>> \/ (entry = "none" /\ ~discard))
+             /\ cs' = [penv |-> penv, files |-> cs.seed, entry |-> entry, discard |-> discard, lfiles |-> lfs, lentry |-> lentry,
                     error |-> MissingRequired(cs.seed) \/ MissingRequired(lfs),
-                    k |-> FinalK(penv, cs.seed, entry), r |-> FinalR(penv, cs.seed), label |-> FinalLabel(lfs, lentry)]
+                    k |-> FinalK(penv, cs.seed, entry), r |-> FinalR(penv, cs.seed), label |-> FinalLabel(lfs, lentry), labelr |-> FinalLabelR(lfs),
+                    \* service b: its own first file, then a's last one
+                    kb |-> FinalK(penv, OwnThenShared("fb", cs.seed), "none"), rb |-> FinalR(penv, OwnThenShared("fb", cs.seed)),
+                    labelb |-> LastDef(OwnThenShared("lb", lfs)), labelrb |-> FinalLabelR(OwnThenShared("lb", lfs))]
 Spec == Init /\ [][Next]_cs
 LawsHold == IsSeed \/ Laws(cs.penv, cs.files, cs.entry)
 =============================================================================
